@@ -241,6 +241,36 @@ def run(ctx):
                                       % (nsrc, form, noff), desc)
                     elif len(ll) != 2 or not np.all(np.isfinite(ll)):
                         ctx.violation("valid-data-bad-result", "valid data gave %r" % (ll,), desc)
+                    elif isinstance(data, (list, dict)):
+                        # the SAME container edited in place into an invalid one and passed again to the same sampler: the
+                        # second call must validate what it is given now, not what it saw before
+                        edits = ["append"] + (["drop"] if nsrc > 1 else []) + ["covariance"]
+                        edit = edits[int(rng.integers(0, len(edits)))]
+                        extra_src = mk(4, t0=55000 + 100 * nsrc)
+                        if isinstance(data, list):
+                            if edit == "append":
+                                data.append(extra_src)
+                            elif edit == "drop":
+                                data.pop()
+                            else:
+                                data[-1] = mk(4, cov=True, t0=55000 + 100 * (nsrc - 1))
+                        else:
+                            lastk = list(data.keys())[-1]
+                            if edit == "append":
+                                data["zz_new"] = extra_src
+                            elif edit == "drop":
+                                del data[lastk]
+                            else:
+                                data[lastk] = mk(4, cov=True, t0=55000 + 100 * (nsrc - 1))
+                        ctx.evaluations += 1
+                        ctx.distinct.add(repr(("sources-edited-in-place", form, edit, noff)))
+                        try:
+                            joker.marginal_ln_likelihood(data, samples, in_memory=True)
+                            ctx.violation("source-offset-mismatch-accepted", "a valid %s of %d source(s) was edited in place (%s) into an "
+                                          "invalid one and accepted by the same sampler on the second call" % (form, nsrc, edit),
+                                          dict(desc, edit=edit))
+                        except Exception:
+                            pass
                 except Exception as e:
                     if valid:
                         ctx.exception(e, "valid data refused", desc, key="valid-data-refused")
